@@ -187,31 +187,74 @@ fn open_table_emb(path: &Path, tags: &HashMap<[u8; 32], u64>) -> Result<(Vec<Row
 #[derive(Clone, Debug)]
 enum Pop { Ins(u64, bool), Upd(u64, u64), Del(u64) }
 
-struct Base { pemb: u64, bytes: Vec<u8>, l: Layout, rows: Vec<Row>, pops: Vec<Pop>, tags: HashMap<[u8; 32], u64>, ref_table: Vec<Row>, ref_nvec: u64, dir: tempfile::TempDir, desc: String, old_footers: usize }
+struct Base { profile: usize, pemb: u64, bytes: Vec<u8>, l: Layout, rows: Vec<Row>, pops: Vec<Pop>, tags: HashMap<[u8; 32], u64>, ref_table: Vec<Row>, ref_nvec: u64, dir: tempfile::TempDir, desc: String, old_footers: usize }
 
-fn build_base(r: &mut Rng, pending: bool) -> Option<Base> {
+/// history profiles of the base memory.  1-4 contain the layout idioms that make payload byte ranges shared or
+/// out of id order (a payload-less update creates a NEWER frame that points at an OLDER frame's bytes).
+const PROFILES: [&str; 5] = ["random", "A,B,commit,update(A,None),commit", "payload-less-update-of-middle+more-puts", "update-with-payload+delete-newest+payload-less-update", "updates+vacuum"];
+
+fn build_base(r: &mut Rng, profile: usize, pending: bool) -> Option<Base> {
     let mut d = Driver::new();
     let mut ts = 1_700_000_000i64;
     let mut uri = 0u32;
-    let rounds = r.range(1, 3);
     let with_vec = r.chance(3, 4);
-    for round in 0..rounds {
-        let n = r.range(2, 4);
-        for _ in 0..n {
-            ts += r.range(1, 50) as i64; uri += 1;
-            let kind = match r.below(4) { 0 => PayloadKind::Bin, _ => PayloadKind::Text };
-            let embed = if with_vec && r.chance(1, 2) { Some(emb_of(r.below(300))) } else { None };
-            let size = match r.below(5) { 0 => r.range(1, 30) as usize, 4 => r.range(1500, 2300) as usize, _ => r.range(40, 600) as usize };
-            let o = d.step(&Op::Put { kind, size, uri: Some(uri), ts, embed, default_opts: false });
-            if !o.ok { return None; }
-        }
-        if !d.step(&Op::Commit).ok { return None; }
-        if round > 0 || r.chance(1, 2) {
-            let n = d.mem().frame_count() as u64;
-            let a = r.below(n); let b = (a + 1 + r.below(n - 1)) % n;
-            d.step(&Op::Delete { target: a });
-            d.step(&Op::Update { target: b, payload: Some((PayloadKind::Text, r.range(30, 300) as usize)), uri: None });
+    let mut put = |d: &mut Driver, r: &mut Rng, size: usize, ts: &mut i64, uri: &mut u32| -> bool {
+        *ts += r.range(1, 50) as i64; *uri += 1;
+        let kind = match r.below(4) { 0 => PayloadKind::Bin, _ => PayloadKind::Text };
+        let embed = if with_vec && r.chance(1, 2) { Some(emb_of(r.below(300))) } else { None };
+        d.step(&Op::Put { kind, size, uri: Some(*uri), ts: *ts, embed, default_opts: false }).ok
+    };
+    let rsize = |r: &mut Rng| -> usize { match r.below(5) { 0 => r.range(1, 30) as usize, 4 => r.range(1500, 2300) as usize, _ => r.range(40, 600) as usize } };
+    match profile {
+        1 => {
+            // put A, put B, commit, update_frame(A, None), commit: frame 2 (newest) shares frame 0's bytes, B lies behind them
+            if !put(&mut d, r, 300, &mut ts, &mut uri) || !put(&mut d, r, 220, &mut ts, &mut uri) { return None; }
             if !d.step(&Op::Commit).ok { return None; }
+            if !d.step(&Op::Update { target: 0, payload: None, uri: None }).ok { return None; }
+            if !d.step(&Op::Commit).ok { return None; }
+        }
+        2 => {
+            let n = r.range(3, 5);
+            for _ in 0..n { let sz = rsize(r); if !put(&mut d, r, sz, &mut ts, &mut uri) { return None; } }
+            if !d.step(&Op::Commit).ok { return None; }
+            if !d.step(&Op::Update { target: r.range(1, n - 2), payload: None, uri: None }).ok { return None; }
+            if !d.step(&Op::Commit).ok { return None; }
+            if r.chance(2, 3) { for _ in 0..r.range(1, 2) { let sz = rsize(r); if !put(&mut d, r, sz, &mut ts, &mut uri) { return None; } } if !d.step(&Op::Commit).ok { return None; } }
+        }
+        3 => {
+            let n = r.range(3, 4);
+            for _ in 0..n { let sz = rsize(r); if !put(&mut d, r, sz, &mut ts, &mut uri) { return None; } }
+            if !d.step(&Op::Commit).ok { return None; }
+            if !d.step(&Op::Update { target: 0, payload: Some((PayloadKind::Text, r.range(30, 300) as usize)), uri: None }).ok { return None; }
+            if !d.step(&Op::Delete { target: n - 1 }).ok { return None; }
+            if !d.step(&Op::Commit).ok { return None; }
+            if !d.step(&Op::Update { target: r.range(1, n - 2), payload: None, uri: None }).ok { return None; }
+            if !d.step(&Op::Commit).ok { return None; }
+        }
+        4 => {
+            for _ in 0..4 { let sz = rsize(r); if !put(&mut d, r, sz, &mut ts, &mut uri) { return None; } }
+            if !d.step(&Op::Commit).ok { return None; }
+            if !d.step(&Op::Delete { target: 2 }).ok { return None; }
+            if !d.step(&Op::Update { target: 1, payload: Some((PayloadKind::Text, r.range(30, 300) as usize)), uri: None }).ok { return None; }
+            if !d.step(&Op::Update { target: 0, payload: None, uri: None }).ok { return None; }
+            if !d.step(&Op::Commit).ok { return None; }
+            if !d.step(&Op::Vacuum).ok { return None; }
+            if r.chance(1, 2) { let sz = rsize(r); if !put(&mut d, r, sz, &mut ts, &mut uri) { return None; } if !d.step(&Op::Commit).ok { return None; } }
+        }
+        _ => {
+            let rounds = r.range(1, 3);
+            for round in 0..rounds {
+                let n = r.range(2, 4);
+                for _ in 0..n { let sz = rsize(r); if !put(&mut d, r, sz, &mut ts, &mut uri) { return None; } }
+                if !d.step(&Op::Commit).ok { return None; }
+                if round > 0 || r.chance(1, 2) {
+                    let n = d.mem().frame_count() as u64;
+                    let a = r.below(n); let b = (a + 1 + r.below(n - 1)) % n;
+                    d.step(&Op::Delete { target: a });
+                    d.step(&Op::Update { target: b, payload: Some((PayloadKind::Text, r.range(30, 300) as usize)), uri: None });
+                    if !d.step(&Op::Commit).ok { return None; }
+                }
+            }
         }
     }
     // committed table
@@ -241,6 +284,14 @@ fn build_base(r: &mut Rng, pending: bool) -> Option<Base> {
                 pops.push(Pop::Upd(b, d.last_tag));
             }
         }
+        // a pending payload-less update: the new frame re-uses the bytes (and the content) of a committed frame
+        let used: Vec<u64> = pops.iter().filter_map(|p| match p { Pop::Upd(a, _) | Pop::Del(a) => Some(*a), _ => None }).collect();
+        if profile != 0 && r.chance(2, 3) {
+            if let Some(x) = rows.iter().find(|x| x.status == 0 && !used.contains(&x.id)) {
+                let o = d.step(&Op::Update { target: x.id, payload: None, uri: None }); if !o.ok || o.auto_committed { return None; }
+                pops.push(Pop::Upd(x.id, x.tag));
+            }
+        }
         if d.mem().frame_count() as u64 != committed_n { return None; }
         let m = d.mem.take().unwrap();
         memvid_core::verif_hooks::drop_without_commit(m);
@@ -259,8 +310,8 @@ fn build_base(r: &mut Rng, pending: bool) -> Option<Base> {
     // embeddings carried by the pending records (an update inherits the embedding of the frame it supersedes)
     let pemb = ref_emb.iter().skip(committed_n as usize).filter(|x| **x).count() as u64;
     let old_footers = count_valid_footers(&bytes).saturating_sub(1);
-    let desc = format!("{} committed frames, pending {:?}, {} vectors, file {} bytes, toc at {}, footer at {}", committed_n, pops, ref_nvec, l.len, l.toc_off, l.footer_off);
-    Some(Base { pemb, bytes, l, rows, pops, tags, ref_table, ref_nvec, dir, desc, old_footers })
+    let desc = format!("history '{}': {} committed frames, pending {:?}, {} vectors, file {} bytes, toc at {}, footer at {}", PROFILES[profile], committed_n, pops, ref_nvec, l.len, l.toc_off, l.footer_off);
+    Some(Base { profile, pemb, bytes, l, rows, pops, tags, ref_table, ref_nvec, dir, desc, old_footers })
 }
 
 fn b(x: bool) -> T { T::B(x) }
@@ -309,9 +360,9 @@ fn abstract_input(base: &Base, dmgs: &[Damage], bits: u8, same: bool) -> T {
     ])
 }
 
-fn one_case(base: &Base, dmgs: &[Damage], bits: u8, same: bool, w: &mut dyn std::io::Write, stream: &str) {
+fn one_case(base: &Base, dmgs: &[Damage], bits: u8, same: bool, w: &mut dyn std::io::Write, stream: &str) -> bool {
     let mut bytes = base.bytes.clone();
-    for d in dmgs { if !apply_damage(&mut bytes, &base.l, d) { return; } }
+    for d in dmgs { if !apply_damage(&mut bytes, &base.l, d) { return false; } }
     let p = base.dir.path().join("work.mv2");
     std::fs::write(&p, &bytes).expect("write work copy");
     let dry = bits & 16 != 0;
@@ -372,6 +423,7 @@ fn one_case(base: &Base, dmgs: &[Damage], bits: u8, same: bool, w: &mut dyn std:
         T::Tup(vec![T::N(r1.status), findings, phases, b(vpass), T::N(r2.status), b(ok), rows, T::N(nv as u128)])
     };
     let mut tags: Vec<String> = dmgs.iter().map(|d| format!("damage:{}", d.name())).collect();
+    tags.push(format!("history:{}", PROFILES[base.profile]));
     tags.push(format!("log:{}", if base.pops.is_empty() { "clean" } else if dmgs.contains(&Damage::WalGarbage) { "corrupt-with-pending" } else { "pending" }));
     tags.push(format!("opts:{}{}", bits & 15, if dry { "+dry" } else { "" }));
     tags.push(format!("second:{}", if same { "same" } else { "default" }));
@@ -388,6 +440,7 @@ fn one_case(base: &Base, dmgs: &[Damage], bits: u8, same: bool, w: &mut dyn std:
     let nontrivial = !(dmgs.iter().all(|d| *d == Damage::None) && base.pops.is_empty() && bits == 0);
     if std::env::var("MV_DEBUG").is_ok() { eprintln!("C21 {:?} bits {} same {} -> {} | verify {} {} | 2nd {} | open {:?} | viol {:?}", dmgs, bits, same, r1.text, vpass, vtext, r2.text, opened.as_ref().map(|(t, nv)| (t.len(), *nv)).map_err(|e| e.clone()), viol); }
     emit(w, stream, &Case { input, output: out, violation: viol, nontrivial, tags, key });
+    true
 }
 
 fn pick_damage(r: &mut Rng, class: u64) -> Damage {
@@ -413,34 +466,43 @@ pub fn run(seed: u64, n: usize, tier: &str, w: &mut dyn std::io::Write) {
     std::env::set_var("TMPDIR", scratch.path());
     let mut r = Rng::new(seed ^ 0xC21);
     let thorough = tier == "thorough";
-    // (damage class, pending?) plan: every class of the property's list on a closed and on a crash-left file
-    let mut plan: Vec<(Vec<u64>, bool)> = vec![
-        (vec![0], true), (vec![1], false), (vec![1], true), (vec![2], true), (vec![3], false), (vec![5], false), (vec![5], true),
-        (vec![6], false), (vec![7], true), (vec![8], false), (vec![9], true), (vec![3], true), (vec![2], false), (vec![4], false),
-        (vec![6], true), (vec![7], false), (vec![0], false), (vec![2, 6], false), (vec![3, 7], true), (vec![1, 10], false), (vec![9], false), (vec![8], true),
+    // plan entries: (history profile, crash-left?, damage classes, fixed option bits or random).
+    // The head runs first on every seed: the shared-byte-range base of the coordinator's seeded change
+    // (rebuild_time_index; damaged time index with default options), then the known / repaired classes.
+    type E = (usize, bool, Vec<u64>, Option<u8>);
+    let head: Vec<E> = vec![
+        (1, false, vec![0], Some(1)), (1, false, vec![6], Some(0)),
+        (0, true, vec![1], Some(0)), (0, false, vec![5], Some(4)),
+        (2, true, vec![6], Some(0)), (3, false, vec![0], Some(2)), (4, false, vec![7], Some(0)), (1, true, vec![0], Some(4)),
     ];
-    // rotate so that different seeds start elsewhere but the first two known classes stay covered
-    let rot = (r.below(4) as usize) * 5;
-    let tail = plan.split_off(7); let mut tail2 = tail.clone(); tail2.rotate_left(rot % tail.len()); plan.extend(tail2);
-    let optsets_quick: [u8; 8] = [0, 15, 0, 8, 16, 4, 0, 31];
+    let mut tail: Vec<E> = vec![
+        (0, true, vec![0], Some(0)), (0, false, vec![1], Some(15)), (0, true, vec![2], Some(8)), (2, false, vec![3], Some(16)), (0, true, vec![5], Some(0)),
+        (3, true, vec![0], Some(1)), (0, false, vec![6], Some(0)), (0, true, vec![7], Some(0)), (4, true, vec![3], Some(15)), (0, false, vec![8], Some(0)),
+        (0, true, vec![9], Some(0)), (2, false, vec![0], Some(15)), (0, true, vec![3], Some(4)), (0, false, vec![2], Some(31)), (4, false, vec![0], Some(1)),
+        (0, false, vec![4], Some(0)), (3, false, vec![6], Some(8)), (0, true, vec![6], Some(15)), (0, false, vec![7], Some(16)), (2, true, vec![1], Some(2)),
+        (0, false, vec![2, 6], Some(0)), (0, true, vec![3, 7], Some(0)), (0, false, vec![1, 10], Some(0)), (1, false, vec![3], Some(4)), (0, false, vec![9], Some(0)),
+        (4, true, vec![6], Some(0)), (0, true, vec![8], Some(4)), (3, true, vec![2], Some(15)), (1, true, vec![6], Some(0)), (2, false, vec![7], Some(1)),
+    ];
+    let rot = (r.below(6) as usize) * 5;
+    tail.rotate_left(rot % 30);
+    let mut plan = head; plan.extend(tail);
     let mut made = 0usize; let mut idx = 0usize;
-    let mut bases: Vec<Option<Base>> = vec![None, None];
-    let mut uses = [0usize, 0usize];
+    let mut bases: std::collections::HashMap<(usize, bool), (Base, usize)> = std::collections::HashMap::new();
     while made < n && idx < 100000 {
-        let (classes, pending) = plan[idx % plan.len()].clone();
-        let slot = pending as usize;
-        if bases[slot].is_none() || uses[slot] >= 4 { bases[slot] = build_base(&mut r, pending); uses[slot] = 0; }
-        let Some(base) = bases[slot].as_ref() else { idx += 1; continue };
-        uses[slot] += 1;
+        let (profile, pending, classes, fixed_bits) = plan[idx % plan.len()].clone();
+        let key = (profile, pending);
+        let stale_base = bases.get(&key).map_or(true, |(_, uses)| *uses >= 4 || (idx >= plan.len() && *uses >= 2));
+        if stale_base { match build_base(&mut r, profile, pending) { Some(bs) => { bases.insert(key, (bs, 0)); } None => { bases.remove(&key); idx += 1; continue; } } }
+        let entry = bases.get_mut(&key).unwrap(); entry.1 += 1;
+        let base = &entry.0;
         let dmgs: Vec<Damage> = classes.iter().map(|c| pick_damage(&mut r, *c)).collect();
         let same = r.chance(1, 3);
-        if thorough && idx % 6 == 0 {
+        if thorough && idx % 5 == 0 {
             // all 32 option sets on this (base, damage)
-            for bits in 0..32u8 { one_case(base, &dmgs, bits, bits % 3 == 0, w, "doctor"); made += 1; }
+            for bits in 0..32u8 { if one_case(base, &dmgs, bits, bits % 3 == 0, w, "doctor") { made += 1; } }
         } else {
-            let bits = if idx < plan.len() { optsets_quick[idx % optsets_quick.len()] } else { r.below(32) as u8 };
-            one_case(base, &dmgs, bits, same, w, "doctor");
-            made += 1;
+            let bits = match fixed_bits { Some(x) if idx < plan.len() => x, _ => r.below(32) as u8 };
+            if one_case(base, &dmgs, bits, same, w, "doctor") { made += 1; }
         }
         idx += 1;
     }
